@@ -355,7 +355,15 @@ private:
     if (record_timestamp_ns >= _next_rotation_time)
     {
       _rotate_files(record_timestamp_ns);
-      _next_rotation_time = _calculate_rotation_tp(record_timestamp_ns, _config);
+
+      // Advance along the rotation schedule, skipping any periods without records. Calculating the
+      // next rotation from the timestamp of the record that triggered this one would shift the
+      // schedule by the lateness of that record
+      do
+      {
+        _next_rotation_time = _calculate_rotation_tp(_next_rotation_time, _config);
+      } while (record_timestamp_ns >= _next_rotation_time);
+
       return true;
     }
 
